@@ -33,6 +33,7 @@ def run(r):
     r.rule = RULE
     r.assumptions = ["HashMap is a finite map (iteration order unobservable: the merged loops only insert absent keys)",
                      "integer truncations (as u32 / as u16) of xref-stream fields are not modelled; generated fields fit",
-                     "the /Prev chain walk, startxref search and tokenisation are observed by the correspondence, not modelled",
+                     "the /Prev chain walk and the startxref search are modelled over an abstract file (offset -> section record, tail lines; ChainModel.v) that is hand-read from the code; the correspondence ties them only end to end (every generated file is a /Prev chain); tokenisation is observed only",
+                     "the code never reads /XRefStm (hybrid-reference files, ISO 32000-1 7.5.8.4): c04_file_newest_wins is stated for chains without /XRefStm, c04_hybrid_refuted is the witness; no generated file is hybrid",
                      "model is of the tree with fix_c04_stale_compressed.patch and fix_c04_w0_default.patch applied"]
-    return standard(r, "c04", ["theories/C04/Proofs.vo"], ["theories/C04/Model.vo"], ["hist"], pre=corpus)
+    return standard(r, "c04", ["theories/C04/Proofs.vo", "theories/C04/ChainProofs.vo"], ["theories/C04/Model.vo"], ["hist"], pre=corpus)
